@@ -118,16 +118,16 @@ Fixpoint run_cleanup (new : bytes) (cl : list fsop) (o : oracle) (s : fs) : list
       e :: run_cleanup new r o' (fs_step new s e)
   end.
 
-Fixpoint run (new : bytes) (p : protocol) (o : oracle) (s : fs) : list ev :=
+Fixpoint run_proto (new : bytes) (p : protocol) (o : oracle) (s : fs) : list ev :=
   match p with
   | [] => []
   | (op, h) :: r =>
       let '(d, o') := next o in
       let e := mk_ev s op d in
       let s' := fs_step new s e in
-      e :: (if eok e then run new r o' s'
+      e :: (if eok e then run_proto new r o' s'
             else match h with
-                 | None => run new r o' s'
+                 | None => run_proto new r o' s'
                  | Some cl => run_cleanup new cl o' s'
                  end)
   end.
